@@ -159,6 +159,10 @@ func solveAll(obs []*Oblig, pres map[*Exec][2]string, timeoutS int, workers int,
 		go func() {
 			defer wg.Done()
 			for o := range ch {
+				timeoutS := timeoutS
+				if o.TimeoutS > 0 {
+					timeoutS = o.TimeoutS
+				}
 				base := sanitize(o.Name)
 				if len(base) > 150 {
 					base = fmt.Sprintf("ob%p", o)
